@@ -41,17 +41,18 @@ Record state : Type := mkState
     bal : acct -> string -> Z;
     del_fix : bool;                   (* does DeleteIdentityRecordById also delete the address+key index entry? (probed on the real code) *)
     msg_guard : bool;
-    rrtok : list addr }.                (* addresses with a validator recovery token (x/recovery) *)                 (* does MsgSetNetworkProperties apply the EnsureUniqueKeys guards? (probed on the real code) *)
+    rrtok : list addr;                (* addresses with a validator recovery token (x/recovery) *)                 (* does MsgSetNetworkProperties apply the EnsureUniqueKeys guards? (probed on the real code) *)
+    rot_check : bool }.                 (* do the rotations refuse a target that already holds identity records? (probed) *)
 
-Definition set_recs (s : state) x := mkState x (idx s) (reqs s) (last_rid s) (last_qid s) (ukeys s) (min_tip s) (councilors s) (perm_c s) (perm_v s) (perm_n s) (accts s) (secrets s) (rotated s) (bal s) (del_fix s) (msg_guard s) (rrtok s).
-Definition set_idx (s : state) x := mkState (recs s) x (reqs s) (last_rid s) (last_qid s) (ukeys s) (min_tip s) (councilors s) (perm_c s) (perm_v s) (perm_n s) (accts s) (secrets s) (rotated s) (bal s) (del_fix s) (msg_guard s) (rrtok s).
-Definition set_reqs (s : state) x := mkState (recs s) (idx s) x (last_rid s) (last_qid s) (ukeys s) (min_tip s) (councilors s) (perm_c s) (perm_v s) (perm_n s) (accts s) (secrets s) (rotated s) (bal s) (del_fix s) (msg_guard s) (rrtok s).
-Definition set_last_rid (s : state) x := mkState (recs s) (idx s) (reqs s) x (last_qid s) (ukeys s) (min_tip s) (councilors s) (perm_c s) (perm_v s) (perm_n s) (accts s) (secrets s) (rotated s) (bal s) (del_fix s) (msg_guard s) (rrtok s).
-Definition set_last_qid (s : state) x := mkState (recs s) (idx s) (reqs s) (last_rid s) x (ukeys s) (min_tip s) (councilors s) (perm_c s) (perm_v s) (perm_n s) (accts s) (secrets s) (rotated s) (bal s) (del_fix s) (msg_guard s) (rrtok s).
-Definition set_ukeys (s : state) x := mkState (recs s) (idx s) (reqs s) (last_rid s) (last_qid s) x (min_tip s) (councilors s) (perm_c s) (perm_v s) (perm_n s) (accts s) (secrets s) (rotated s) (bal s) (del_fix s) (msg_guard s) (rrtok s).
-Definition set_bal (s : state) ac x := mkState (recs s) (idx s) (reqs s) (last_rid s) (last_qid s) (ukeys s) (min_tip s) (councilors s) (perm_c s) (perm_v s) (perm_n s) ac (secrets s) (rotated s) x (del_fix s) (msg_guard s) (rrtok s).
+Definition set_recs (s : state) x := mkState x (idx s) (reqs s) (last_rid s) (last_qid s) (ukeys s) (min_tip s) (councilors s) (perm_c s) (perm_v s) (perm_n s) (accts s) (secrets s) (rotated s) (bal s) (del_fix s) (msg_guard s) (rrtok s) (rot_check s).
+Definition set_idx (s : state) x := mkState (recs s) x (reqs s) (last_rid s) (last_qid s) (ukeys s) (min_tip s) (councilors s) (perm_c s) (perm_v s) (perm_n s) (accts s) (secrets s) (rotated s) (bal s) (del_fix s) (msg_guard s) (rrtok s) (rot_check s).
+Definition set_reqs (s : state) x := mkState (recs s) (idx s) x (last_rid s) (last_qid s) (ukeys s) (min_tip s) (councilors s) (perm_c s) (perm_v s) (perm_n s) (accts s) (secrets s) (rotated s) (bal s) (del_fix s) (msg_guard s) (rrtok s) (rot_check s).
+Definition set_last_rid (s : state) x := mkState (recs s) (idx s) (reqs s) x (last_qid s) (ukeys s) (min_tip s) (councilors s) (perm_c s) (perm_v s) (perm_n s) (accts s) (secrets s) (rotated s) (bal s) (del_fix s) (msg_guard s) (rrtok s) (rot_check s).
+Definition set_last_qid (s : state) x := mkState (recs s) (idx s) (reqs s) (last_rid s) x (ukeys s) (min_tip s) (councilors s) (perm_c s) (perm_v s) (perm_n s) (accts s) (secrets s) (rotated s) (bal s) (del_fix s) (msg_guard s) (rrtok s) (rot_check s).
+Definition set_ukeys (s : state) x := mkState (recs s) (idx s) (reqs s) (last_rid s) (last_qid s) x (min_tip s) (councilors s) (perm_c s) (perm_v s) (perm_n s) (accts s) (secrets s) (rotated s) (bal s) (del_fix s) (msg_guard s) (rrtok s) (rot_check s).
+Definition set_bal (s : state) ac x := mkState (recs s) (idx s) (reqs s) (last_rid s) (last_qid s) (ukeys s) (min_tip s) (councilors s) (perm_c s) (perm_v s) (perm_n s) ac (secrets s) (rotated s) x (del_fix s) (msg_guard s) (rrtok s) (rot_check s).
 (* everything that is neither record, index, request, counter, unique-key list nor balance *)
-Definition set_aux (s : state) co pc pv pn ac ro rr := mkState (recs s) (idx s) (reqs s) (last_rid s) (last_qid s) (ukeys s) (min_tip s) co pc pv pn ac (secrets s) ro (bal s) (del_fix s) (msg_guard s) rr.
+Definition set_aux (s : state) co pc pv pn ac ro rr := mkState (recs s) (idx s) (reqs s) (last_rid s) (last_qid s) (ukeys s) (min_tip s) co pc pv pn ac (secrets s) ro (bal s) (del_fix s) (msg_guard s) rr (rot_check s).
 
 Fixpoint mem (a : Z) (l : list Z) : bool := match l with [] => false | b :: r => (a =? b) || mem a r end.
 Definition add_mem (a : Z) (l : list Z) : list Z := if mem a l then l else l ++ [a].
@@ -311,11 +312,13 @@ Definition rotate_core (a b : addr) (s1 : state) : outcome state :=
   let s3 := set_reqs s2 (map (fun q => mkReq (q_id q) (ren a b (q_addr q)) (ren a b (q_ver q)) (q_rids q) (q_denom q) (q_amt q) (q_date q)) (reqs s2)) in
   Ok (set_aux s3 (map (ren a b) (councilors s3)) (map (ren a b) (perm_c s3)) (map (ren a b) (perm_v s3)) (map (ren a b) (perm_n s3))
               (accts s3) (a :: rotated s3) (map (ren a b) (rrtok s3))).
+Definition has_records (s : state) (b : addr) : bool := match idx_of s b with [] => false | _ => true end.
 Definition rotate_msg (a b : addr) (proof_ok : bool) (s : state) : outcome state :=
   if mem a (rrtok s) then Err "address has validator recovery token" else
   if negb (mem a (secrets s)) then Err "recovery record not found" else
   if negb proof_ok then Err "invalid proof" else
   if mem b (rotated s) then Err "target address already has rotation history" else
+  if rot_check s && has_records s b then Err "target address already has identity records" else
   if negb (mem a (accts s)) then Err "account does not exist" else
   if mem b (accts s) then Err "rotated account already exists" else
   do s1 <- move_bal a b s;
@@ -325,7 +328,16 @@ Definition rotate_rr (a b : addr) (holder_ok : bool) (s : state) : outcome state
   if negb (mem a (rrtok s)) then Err "recovery token does not exist" else
   if negb holder_ok then Err "not enough RR token amount for rotation" else
   if mem b (rotated s) then Err "target address already has rotation history" else
+  if rot_check s && has_records s b then Err "target address already has identity records" else
   rotate_core a b s.
+
+(* gov ExportGenesis + InitGenesis: records, requests and both counters are exported and re-imported;
+   InitGenesis re-sets every record through SetIdentityRecord in id order, which REBUILDS the
+   address+key index (the last record of an (address, key) pair wins).  The stored records are
+   assumed free of uniqueness conflicts (otherwise the import panics; true whenever [UI] holds). *)
+Definition rebuild_idx (l : list record) : list ((addr * string) * Z) :=
+  fold_left (fun acc r => put_idx (r_owner r, r_key r) (r_id r) acc) l [].
+Definition genesis_roundtrip (s : state) : state := set_idx s (rebuild_idx (recs s)).
 
 (* ---------------------------------------------------------------- operations and histories *)
 Inductive op : Type :=
@@ -355,7 +367,7 @@ Definition step (s : state) (o : op) : outcome state :=
   | OSetKeysMsg p new => set_keys_msg p new s
   | ORotate a b ok => rotate_msg a b ok s
   | ORotateRR a b ok => rotate_rr a b ok s
-  | OGenesis => Ok s        (* the identity registry is exported and re-imported unchanged *)
+  | OGenesis => Ok (genesis_roundtrip s)
   end.
 
 (* a failed transaction leaves no trace *)
@@ -375,5 +387,5 @@ Definition signer (o : op) : addr :=
 
 (* starting states: empty registry, given configuration and balances.  Granting the
    claim-councilor permission (AddWhitelistPermission) already creates a "waiting" councilor. *)
-Definition init_state (uk : string) (mt : Z) (pc pv pn ac se : list addr) (b : acct -> string -> Z) (fx mg : bool) (rr : list addr) : state :=
-  mkState [] [] [] 0 0 uk mt pc pc pv pn ac se [] b fx mg rr.
+Definition init_state (uk : string) (mt : Z) (pc pv pn ac se : list addr) (b : acct -> string -> Z) (fx mg : bool) (rr : list addr) (rc : bool) : state :=
+  mkState [] [] [] 0 0 uk mt pc pc pv pn ac se [] b fx mg rr rc.
